@@ -66,6 +66,10 @@ def build(table):
                 dict(('k%d' % j, j) for j in range(w))
         elif t in ('clist', 'hlist'):
             objs[i] = SUBCLASSES[t]([res(ch) if (ch[0] == 'v' or ch[1] < i) else None for ch in n['c']])
+            if t == 'hlist':
+                # identity-hashed, so a set can hold several of them: a leaf of its own keeps any two apart by
+                # content as well (the order-insensitive fingerprint of sets needs members it can tell apart)
+                list.insert(objs[i], 0, '#node%d' % i)
         elif t == 'tdict':
             objs[i] = TrackingDict()
             for k, ch in n['c']:
